@@ -6,7 +6,7 @@ import json, subprocess, sys
 IMPLEMENTED = sys.argv[1].split(",") if len(sys.argv) > 1 else []
 
 P = {
- "C01": ("random + enumerated histories; oracle = every call returns (overflow/debug checks on) + hang watchdog; libFuzzer target ops_total in thorough",
+ "C01": ("random + enumerated histories; oracle = every call returns (overflow/debug checks on) + hang watchdog",
          "Generated histories of every public operation over structured and raw input never panic in an overflow-checked build and never exceed the watchdog; this is exploration, not a termination proof.", "§4 C01"),
  "C02": ("invariant checked after every call over generated histories (raw + tracked by reference model)",
          "Geometry invariants are asserted after every single public call (incl. each feed()) of generated histories with resizes and buffer switches; wrap-pending legitimacy is decided by the one-step reference model on in-domain input.", "§4 C02"),
@@ -64,7 +64,7 @@ for pid in sorted(P):
             "engine": "vcheck",
             "level_claimed": {"category": "exploration", "text": text, "design_ref": ref},
             "level_note": "Generated-input search only: holds on everything generated, never a proof. Trusted base: the harness's reference parser / one-step spec / probe battery (written from the property statements and the vt100.net table), rustc, and avt's public API as the only observation channel.",
-            "technique": tech,
+            "technique": tech + "; thorough tier adds a coverage-guided libFuzzer stage (cargo-fuzz) whose inputs drive the same generators and are judged by the same oracle",
         })
     else:
         na.append({"property_id": pid, "reason": NOT_YET})
@@ -80,6 +80,8 @@ manifest = {
         "add_only": True,
     },
     "engines": [
+        {"name": "libfuzzer", "path": "/verif/fuzz", "serves_properties": sorted(IMPLEMENTED),
+         "kind_free_text": "cargo-fuzz crate (targets structured, ops_total, parser_diff, chunk_split) used by the thorough tier of every check; built with cargo +nightly fuzz build -s none"},
         {"name": "vcheck", "path": "/verif/harness", "serves_properties": sorted(IMPLEMENTED),
          "kind_free_text": "Rust binary: deterministic seeded generators (choice source shared with the fuzz targets), bounded-exhaustive enumerators, reference parser + one-step spec + probe battery as oracles, concrete-case delta-debugging shrinker, JSON replay files"},
     ],
